@@ -10,6 +10,7 @@ CONSTANTS
   Variant = "shared_default"
   ElemOf <- Elem3
   CacheVariant = "none"
+  OwnerVariant = "keep"
 INVARIANT TypeOK
 INVARIANT ListsExactlyItsSpecies
 INVARIANT OwnerAlive
